@@ -399,6 +399,47 @@ pub(crate) mod verif_probe {
                 }
                 Some(json!({"stuck": stuck, "example": example}))
             }
+            "mirror_mapping" | "from_config_probe" => {
+                // real ConnectionPool::from_config on a config built in memory (validate_config = false: nothing is connected)
+                let rt = tokio::runtime::Builder::new_multi_thread().worker_threads(2).enable_all().build().unwrap();
+                let vv = v.clone();
+                Some(rt.block_on(async move {
+                    let mut cfg = crate::config::Config::default();
+                    cfg.general.validate_config = false;
+                    let db = format!("verif_fc_{}", std::time::SystemTime::now().duration_since(std::time::UNIX_EPOCH).unwrap().as_nanos());
+                    let mut pool = crate::config::Pool::default();
+                    pool.shards.clear();
+                    let shard_ids: Vec<String> = match vv.get("shard_ids").and_then(|x| x.as_array()) {
+                        Some(a) => a.iter().map(|x| x.as_str().unwrap().to_string()).collect(), None => vec!["0".to_string()] };
+                    let ns = vv.get("servers").and_then(|x| x.as_u64()).unwrap_or(1) as usize;
+                    for sid in shard_ids.iter() {
+                        let mut shard = crate::config::Shard { database: "db".to_string(), mirrors: None, servers: vec![] };
+                        for i in 0..ns {
+                            shard.servers.push(crate::config::ServerConfig { host: format!("s{}", i), port: 5432 + i as u16, role: if i == 0 { Role::Primary } else { Role::Replica } });
+                        }
+                        if let Some(ms) = vv.get("mirrors").and_then(|x| x.as_array()) {
+                            shard.mirrors = Some(ms.iter().map(|m| crate::config::MirrorServerConfig { host: m["host"].as_str().unwrap().to_string(),
+                                port: m["port"].as_u64().unwrap() as u16, mirroring_target_index: m["target"].as_u64().unwrap() as usize }).collect());
+                        }
+                        pool.shards.insert(sid.clone(), shard);
+                    }
+                    if let Some(r) = vv.get("default_role").and_then(|x| x.as_str()) { pool.default_role = r.to_string(); }
+                    let mut user = User::default();
+                    user.username = "u".to_string();
+                    user.password = Some("pw".to_string());
+                    pool.users.insert("0".to_string(), user);
+                    let validated = pool.validate().is_ok();
+                    cfg.pools.insert(db.clone(), pool);
+                    crate::config::verif_probe::set_config(cfg);
+                    let csm: ClientServerMap = Arc::new(Mutex::new(HashMap::new()));
+                    if let Err(e) = ConnectionPool::from_config(csm).await { return json!({"error": format!("{:?}", e), "validated": validated}); }
+                    let cp = match get_pool(&db, "u") { Some(p) => p, None => return json!({"error": "pool missing", "validated": validated}) };
+                    let mirrors: Vec<Vec<Value>> = cp.addresses[0].iter().map(|a| a.mirrors.iter().map(|m| json!([m.host, m.port])).collect()).collect();
+                    let shards: Vec<Vec<usize>> = cp.addresses.iter().map(|s| s.iter().map(|a| a.shard).collect()).collect();
+                    json!({"validated": validated, "mirrors": mirrors, "address_shards": shards, "settings_shards": cp.settings.shards,
+                           "databases": cp.databases.len()})
+                }))
+            }
             "pool_try_unban" => {
                 let (pool, addrs) = bare_pool(&v["roles"], v["ban_time"].as_i64().unwrap());
                 let now = chrono::offset::Utc::now().naive_utc();
